@@ -40,7 +40,8 @@ def run(pm, ctx):
     I.call_function(u, af, [obj, pairs("P"), pairs("Q"), Num("f")], {}, qual="add_mlcl_constraint")
     X, Y = data_XY()
     I.call_method(obj, "fit", [X, Y])
-    evs = [e for e in dedup_events(nonusage(I.events)) if e.unit is not None and e.unit.relpath == u.relpath]
+    evs = [e for e in dedup_events(nonusage(I.events)) if e.unit is not None and e.unit.relpath == u.relpath
+           and e.kind in ("axis-mismatch", "index-space", "fancy-inplace")]
     for e in evs:
         st = e.stmt()
         ctx.violation("C14-a", u.relpath, e.func, norm_src(st)[:160] if st is not None else "?", f"[{e.kind}] {e.msg}", line=getattr(e.node, "lineno", None),
@@ -77,31 +78,29 @@ def run(pm, ctx):
             continue
         kinds[which] = lp
     if set(kinds) != {"cannot_link", "must_link"}:
-        ctx.violation("C14-b", u.relpath, "add_mlcl_constraint.intercept_grads", "loops", "no loop over each of must_link and cannot_link", line=ig.lineno, site=site0)
+        ctx.unrecognised("C14-b", site0, "the injection is not written as one loop over must_link and one over cannot_link")
     for which, lp in kinds.items():
         site = f"intercept_grads: {which}"
         sign = 1 if which == "cannot_link" else -1
         probs = []
         tg = [norm_src(e) for e in lp.target.elts] if isinstance(lp.target, ast.Tuple) else []
         if len(tg) != 2:
-            probs.append("the pair is not unpacked into two sample ids")
-            ctx.violation("C14-b", u.relpath, "add_mlcl_constraint.intercept_grads", norm_src(lp)[:100], "; ".join(probs), line=lp.lineno, site=site)
+            ctx.unrecognised("C14-b", site, "the pair is not unpacked into two sample ids")
             continue
         a, b = tg
         guard = lp.body[0] if len(lp.body) == 1 and isinstance(lp.body[0], ast.If) else None
+        body = guard.body if guard is not None else lp.body
         if guard is None or sorted(norm_src(v) for v in (guard.test.values if isinstance(guard.test, ast.BoolOp) and isinstance(guard.test.op, ast.And) else [guard.test])) != \
                 sorted([f"{a} in last_indices", f"{b} in last_indices"]):
-            probs.append("the update is not guarded by both samples being in the batch")
-            body = lp.body
-        else:
-            body = guard.body
+            probs.append("the update is not guarded by both samples being in the batch (list.index raises for an absent sample)")
         idx = [s for s in body if isinstance(s, ast.Assign) and isinstance(s.targets[0], ast.Tuple)]
         rows = None
         if idx and [norm_src(e) for e in idx[0].value.elts] == [f"last_indices.index({a})", f"last_indices.index({b})"]:
             rows = [norm_src(e) for e in idx[0].targets[0].elts]
-        else:
-            probs.append("rows are not the positions of the two samples in the recorded batch")
         ups = [s for s in body if isinstance(s, ast.AugAssign)]
+        if rows is None:
+            ctx.unrecognised("C14-b", site, "rows are not located with last_indices.index(sample)")
+            continue
         if rows and len(ups) == 2:
             r0, r1 = rows
             for s, (me, other) in zip(ups, ((r0, r1), (r1, r0))):
